@@ -49,7 +49,7 @@ func (dec *Decoder) readObject(structInfo structInfo) interface{} {
 			break
 		}
 		if field, ok := structInfo.fields[name]; ok {
-			field.Decode(dec, field.Type.Type1(), field.Field.UnsafeGet(ptr))
+			field.Decode(dec, field.Type.Type1(), field.unsafeGet(ptr))
 		} else {
 			var v interface{}
 			dec.decodeInterface(dec.NextByte(), &v)
@@ -87,7 +87,7 @@ func (valdec *structDecoder) decodeField(dec *Decoder, ptr unsafe.Pointer, name 
 	field, ok := valdec.fields[name]
 	valdec.RUnlock()
 	if ok {
-		field.Decode(dec, field.Type.Type1(), field.Field.UnsafeGet(ptr))
+		field.Decode(dec, field.Type.Type1(), field.unsafeGet(ptr))
 	} else {
 		var v interface{}
 		dec.decodeInterface(dec.NextByte(), &v)
